@@ -74,3 +74,23 @@ package search
 //@   modifies b.*, s.aborted, s.hstack.*, s.pv.*, s.ms.*, s.tt.data.*, opts.Counters.*
 //@   loop 1: invariant bs(b) == old(bs(b)) && histKept(b) && s.hstack.sp == old(s.hstack.sp) && len(s.ms.frames) == old(len(s.ms.frames)) + 1 && implies(old(s.aborted), s.aborted) && nodesOK(opts)
 //@   loop 1: modifies b.*, s.aborted, s.hstack.*, s.pv.*, s.ms.allocIx, s.ms.data.*, s.tt.data.*, opts.Counters.*
+//@
+//@ func pvInfo view search
+//@   trusted read-only (builds a string)
+//@   modifies nothing
+//@
+//@ func (*Search).iterativeDeepen
+//@   props C06
+//@   views search
+//@   allow-extern fmt. time. os. strings. io.
+//@   timeout 200
+//@   requires searchInv(s) && len(b.hashes) >= 1
+//@   ensures [board]  bs(b) == old(bs(b)) && histKept(b)
+//@   ensures [stacks] s.hstack.sp == old(s.hstack.sp) && len(s.ms.frames) == old(len(s.ms.frames))
+//@   modifies b.*, s.aborted, s.hstack.*, s.pv.*, s.ms.*, s.tt.data.*, s.ranker.history.*, s.ranker.captHist.*, s.ranker.continuations[0].*, s.ranker.continuations[1].*, opts.Counters.*, opts.PonderHit
+//@   loop 1: invariant bs(b) == old(bs(b)) && histKept(b) && s.hstack.sp == old(s.hstack.sp) && len(s.ms.frames) == old(len(s.ms.frames))
+//@   loop 1: modifies b.*, s.aborted, s.hstack.*, s.pv.*, s.ms.*, s.tt.data.*, s.ranker.history.*, s.ranker.captHist.*, s.ranker.continuations[0].*, s.ranker.continuations[1].*, opts.Counters.*, opts.PonderHit
+//@   loop 2: invariant bs(b) == old(bs(b)) && histKept(b) && s.hstack.sp == old(s.hstack.sp) && len(s.ms.frames) == old(len(s.ms.frames))
+//@   loop 2: modifies b.*, s.aborted, s.hstack.*, s.pv.*, s.ms.*, s.tt.data.*, s.ranker.history.*, s.ranker.captHist.*, s.ranker.continuations[0].*, s.ranker.continuations[1].*, opts.Counters.*, opts.PonderHit
+//@   loop 3: invariant bs(b) == old(bs(b)) && histKept(b) && s.hstack.sp == old(s.hstack.sp) && len(s.ms.frames) == old(len(s.ms.frames)) + 1
+//@   loop 3: modifies b.*
